@@ -93,12 +93,34 @@ inductive Case where
   | glue (evs : List Ev)
   | pure (ins : List GIn)
 
-/-- `(glue ev ...)`, `(glue-short ev ...)` (1 s timers; only there may `wait` occur) or `(pure in ...)` -/
+/-- What a script can ask of a remote speaker on a real TCP session (`(glue-tcp ...)`): a session is opened
+    only when none can be up and the peer is not administratively down; it ends by the socket being
+    closed, by a NOTIFICATION from the speaker or by an FSM error; no real-time `wait`. -/
+def tcpOkFrom (maybeUp admin : Bool) : List Ev → Bool
+  | [] => true
+  | .est .. :: es => !maybeUp && !admin && tcpOkFrom true admin es
+  | .down r :: es =>
+      (match r with | .io => true | .remoteNotif .. => true | .fsmError => true | _ => false) &&
+        tcpOkFrom false admin es
+  | .attempt :: es => !maybeUp && tcpOkFrom maybeUp admin es
+  | .force :: es => tcpOkFrom false admin es
+  | .disable :: es => tcpOkFrom false true es
+  | .enable :: es => tcpOkFrom maybeUp false es
+  | .wait :: _ => false
+  | _ :: es => tcpOkFrom maybeUp admin es
+
+def tcpOk (evs : List Ev) : Bool := tcpOkFrom false false evs
+
+/-- `(glue ev ...)`, `(glue-short ev ...)` (1 s timers; only there may `wait` occur), `(glue-tcp ev ...)`
+    (the same events over a real TCP session, where possible) or `(pure in ...)` -/
 def caseOf? : Term → Option Case
   | .list (.atom "glue" :: evs) => do
       let evs ← evs.mapM evOf?
       if evs.contains .wait then none else pure (.glue evs)
   | .list (.atom "glue-short" :: evs) => (evs.mapM evOf?).map .glue
+  | .list (.atom "glue-tcp" :: evs) => do
+      let evs ← evs.mapM evOf?
+      if tcpOk evs then pure (.glue evs) else none
   | .list (.atom "pure" :: ins) => (ins.mapM ginOf?).map .pure
   | _ => none
 
